@@ -318,11 +318,37 @@ def r4(db, rep):
         check(h, {3}, h, 0, [])
 
 
+def r5(db, rep):
+    rep.rule("R5", "FunctionScopes::escape_all_bindings / reorder_binding_indices act on every scope field of FunctionScopes "
+                   "(function, parameters-eval, parameters, lexical, ...): a scope left out keeps register-resident bindings "
+                   "although a direct eval can reach them")
+    import c10
+    adt = db.adts.get("boa_ast::scope::FunctionScopes")
+    if not rep.anchor("R5", "struct boa_ast::scope::FunctionScopes", adt):
+        return
+    scope_fields = [fl["n"] for fl in adt["variants"][0]["fields"]
+                    if fl["ty"].endswith("scope::Scope") or fl["ty"].endswith("Option<boa_ast::scope::Scope>")]
+    rep.floor("R5", "scope fields of FunctionScopes", len(scope_fields), 3)
+    for m in ("escape_all_bindings", "reorder_binding_indices"):
+        fs = [f for f in db.fns.values() if f.krate == "boa_ast" and f.name == m and
+              (f.rec.get("self") or "").endswith("scope::FunctionScopes")]
+        if not rep.anchor("R5", f"FunctionScopes::{m}", fs):
+            continue
+        f = fs[0]
+        touched, whole = c10.touched_fields(f)
+        names = {n for _, n in touched}
+        for fld in scope_fields:
+            rep.ob("R5", f"FunctionScopes::{m}:{fld}", fld in names,
+                   f"FunctionScopes::{m} does not touch the `{fld}` scope — its bindings keep their old placement "
+                   f"(e.g. stay in registers under a direct eval)", loc=f.span)
+
+
 def run(db, rep, tier):
     r1(db, rep)
     r2(db, rep)
     r3(db, rep)
     r4(db, rep)
+    r5(db, rep)
     rep.assumptions += [
         "BytecodeEmitter::emit_* functions do not compile expressions (checked through the bytecompiler call graph)",
     ]
